@@ -30,11 +30,20 @@ var rec = hx.NewRecorder("C13",
 type Case struct {
 	Doc    *DocCase    `json:"doc,omitempty"`
 	Schema *SchemaCase `json:"schema,omitempty"`
+	Golden *GoldenCase `json:"golden,omitempty"`
 }
 
 func runCase(c Case) []*hx.Failure {
 	var out []*hx.Failure
 	switch {
+	case c.Golden != nil:
+		f := hx.Guard("C13", func() *hx.Failure {
+			out = runGolden()
+			return nil
+		})
+		if f != nil {
+			out = append(out, f)
+		}
 	case c.Schema != nil:
 		f := hx.Guard("C13", func() *hx.Failure {
 			o := runSchema(*c.Schema)
@@ -77,6 +86,13 @@ func TestC13Schemas(t *testing.T) {
 
 func TestC13Docs(t *testing.T) {
 	t.Cleanup(closeDocEnv)
+	// identifiers recorded in another process must come out the same in this one
+	gc := Case{Golden: &GoldenCase{On: true}}
+	rec.AddEvals(1)
+	rec.Label("golden-identifiers-compared-with-recorded-run")
+	for _, f := range runCase(gc) {
+		rec.Check(t, gc, f)
+	}
 	rapid.Check(t, func(t *rapid.T) {
 		dc := drawDocCase(t)
 		c := Case{Doc: &dc}
@@ -96,7 +112,7 @@ func TestC13Docs(t *testing.T) {
 			labels = append(labels, "doc:all-fields-null")
 		}
 		if o.mutation != "" {
-			labels = append(labels, "doc:mutated:"+kindClass(o.mutatedKind)+"/"+o.mutation)
+			labels = append(labels, "doc:mutated-kind:"+kindClass(o.mutatedKind), "doc:mutation:"+o.mutation)
 		}
 		if o.commitRoutes >= 2 {
 			labels = append(labels, "doc:genesis-commits-compared")
